@@ -442,3 +442,25 @@ Proof.
   eapply (explicit_geom_ok 8 4 3 1 2 1 1 _ _ 3 2 8 {| p_top := 1; p_left := 1; p_bottom := 1; p_right := 1 |});
     try lia; try reflexivity; vm_compute; try reflexivity; discriminate.
 Qed.
+
+(* ---------- the validator used on emitted stripes is sound ---------- *)
+Lemma range_from_In n : forall a i, In i (range_from n a 1) <-> a <= i < a + Z.of_nat n.
+Proof.
+  induction n as [|n IH]; intros a i; cbn [range_from In].
+  - split; [contradiction|lia].
+  - rewrite IH. rewrite Nat2Z.inj_succ. split; [intros [<-|H]; lia | intros H; destruct (Z.eq_dec a i); [left; assumption | right; lia]].
+Qed.
+
+Lemma tap_eqb_eq a b : tap_eqb a b = true -> a = b.
+Proof. destruct a, b; cbn; try discriminate; try reflexivity. intros H. apply Z.eqb_eq in H. subst. reflexivity. Qed.
+
+Lemma check_stripe_taps_sound b0 b1 p0 p1 n s kd d k lo hi top r0 :
+  check_stripe_taps b0 b1 p0 p1 n s kd d k lo hi top r0 = true ->
+  forall i ky, 0 <= i < n -> 0 <= ky < k ->
+    hw_tap b0 b1 p0 p1 n s kd i (ky * d) = ref_tap lo hi top s (r0 + i) (ky * d).
+Proof.
+  unfold check_stripe_taps. intros Hc i ky Hi Hk.
+  rewrite forallb_forall in Hc. specialize (Hc i). rewrite range_from_In in Hc.
+  specialize (Hc ltac:(lia)). rewrite forallb_forall in Hc. specialize (Hc ky). rewrite range_from_In in Hc.
+  apply tap_eqb_eq. apply Hc. lia.
+Qed.
